@@ -75,9 +75,14 @@ def read_laws(part, t, w, seed):
     e = irsem.from_neutral(t)
     wit = {'tree': t, 'w': w}
     try:
+        # both query orders, each on a fresh object: a read set must not depend on what was asked before
         r_all = names(e.get_r(mem_read=True))
         r_no = names(e.get_r(mem_read=False))
         r_def = names(e.get_r())
+        e2 = irsem.from_neutral(t)
+        r_def &= names(e2.get_r())
+        r_no &= names(e2.get_r(mem_read=False))
+        r_all &= names(e2.get_r(mem_read=True))
     except Exception as ex:
         part.violation('read kind=%s exception=%s' % (kind(t), type(ex).__name__), 'get_r(%s) raises %r' % (irsem.show(t), ex), wit, irsem.size_nodes(t))
         return False
@@ -406,6 +411,22 @@ def match_space(w, tier):
         # a wildcard list that does not contain the pattern's identifiers: plain equality
         yield p, p, (), True
         yield p, ref_subst(p, {X: Y}), (), False
+    # concatenation geometry: bare wildcards as parts; every pair of 2- and 3-slot tilings over the cut points
+    # (an instance iff the two tilings coincide; otherwise parts share one, both or no boundary with the pattern)
+    cs = [c for c in g.cuts(w) if 0 < c < w]
+    til = [(0, c, w) for c in cs] + [(0, c, d, w) for c in cs for d in cs if c < d]
+    for t1 in til:
+        wild = tuple(g.ID('XYZ'[i], t1[i + 1] - t1[i]) for i in range(len(t1) - 1))
+        p = g.CO(*[(wild[i], t1[i], t1[i + 1]) for i in range(len(t1) - 1)])
+        for t2 in til:
+            if len(t2) != len(t1):
+                continue
+            for leaf in ('id', 'int'):
+                parts = []
+                for i in range(len(t2) - 1):
+                    k = t2[i + 1] - t2[i]
+                    parts.append(((g.I(k, 1) if leaf == 'int' and k in (1, 8, 16, 32, 64) else g.ID('abc'[i], k)), t2[i], t2[i + 1]))
+                yield p, g.CO(*parts), wild, t1 == t2
 
 
 def widths(tier):
